@@ -23,7 +23,7 @@ def check(tier, seed, replay=None):
                 c["id"] = f"{fam}_{i}"
             meta[fam] = {"cases": len(cs), "gen_states": d, "gen_transitions": g}
             cases += cs
-        nsim = 12 if tier == "quick" else 400
+        nsim = 12 if tier == "quick" else 4000
         cs, g, d = core.gen_cases(SPEC_DIR, "Expand.tla", "Sim_mix.cfg", "expmix", workers=1,
                                   extra=["-simulate", f"num={nsim}", "-depth", "5", "-seed", str(seed)], cache_key=[nsim, seed])
         for i, c in enumerate(cs):
